@@ -113,10 +113,20 @@ def gen_case(rng, tier):
     if op == 'recover':
         # only top-level roots so that recovery is well defined: member poses come from one rig pose per tree
         traj = [e for e in traj if not any(e[1] in below(rigs, r) for r in rigs)]
+        # recovery needs rig poses to recover: pose every top-level rig at most of 2..5 timestamps
+        roots = [r for r in rigs if not any(r in ms for ms in rigs.values())]
+        have = {(e[0], e[1]) for e in traj}
+        for ts in rng.sample(range(50, 100), rng.randint(2, 5)):
+            for r in roots:
+                if (ts, r) not in have and rng.random() < 0.8:
+                    traj.append([ts, r, rnd_pose(rng)])
         if rng.random() < 0.4:
             masters = 'first'
+    # sparse recovery: some member poses are missing (a sensor that was not localised at that timestamp); what remains
+    # still agrees with the rig geometry
+    sparse = rng.randrange(1, 10 ** 6) if op == 'recover' and rng.random() < 0.5 else None
     return {'rigs': [[r, [[m, p] for m, p in ms.items()]] for r, ms in rigs.items()], 'traj': traj, 'op': op, 'masters': masters,
-            'inplace': rng.random() < 0.5}
+            'inplace': rng.random() < 0.5, 'sparse': sparse}
 
 
 def cases(rng, tier):
@@ -174,7 +184,15 @@ def run_real(case):
         if case['op'] == 'recover':
             masters = masters_of(case, removed)
             res['masters'] = masters
+            if case.get('sparse'):
+                import random as _random
+                drng = _random.Random(case['sparse'])
+                member_ids = {m for _, ms in case['rigs'] for m, _ in ms}
+                for ts, d, _ in dump(removed):
+                    if d in member_ids and d not in (masters or []) and drng.random() < 0.35:
+                        del removed[ts, d]
             before = dump(removed)
+            res['kept'] = before
             if case['inplace']:
                 rec = copy.deepcopy(removed)
                 T.rigs_recover_inplace(rec, rigs, masters)
@@ -205,7 +223,7 @@ def to_model(case):
     rigs = [[rid, [[m, rp(p)] for m, p in ms]] for rid, ms in case['rigs']]
     if case['op'] == 'remove' or r['error']:
         return [{'op': 'remove', 'rigs': rigs, 'traj': [[ts, d, rp(p)] for ts, d, p in case['traj']], 'depth': 10}]
-    return [{'op': 'recover', 'rigs': rigs, 'traj': [[ts, d, rp(p)] for ts, d, p in r['removed']], 'masters': r['masters'], 'depth': 10}]
+    return [{'op': 'recover', 'rigs': rigs, 'traj': [[ts, d, rp(p)] for ts, d, p in r['kept']], 'masters': r['masters'], 'depth': 10}]
 
 
 def compare(case, io_, mo):
@@ -282,8 +300,11 @@ def oracle(case):
             return {'signature': 'free-entry-touched', 'detail': f'({ts},{d}) is not bit-identical'}
     if case['op'] == 'recover':
         rec = {(ts, d): p for ts, d, p in r['recovered']}
+        kept = {(ts, d) for ts, d, _ in r['kept']}
         for ts, d, p in case['traj']:
             if d in rig_ids:
+                if not any((ts, m) in kept for m in below_ids(case, d)):
+                    continue    # sparse recovery: nothing posed under this rig at this timestamp, nothing to recover from
                 if (ts, d) not in rec or not close(mat(rec[(ts, d)]), mat(p)):
                     return {'signature': 'rig-pose-not-recovered', 'detail': f'top-level rig ({ts},{d})'}
             elif (ts, d) not in rec or not close(mat(rec[(ts, d)]), mat(p)):
@@ -294,7 +315,21 @@ def oracle(case):
         for k, M in exp2.items():
             if k in exp and not close(M, exp[k]):
                 return {'signature': 'sensor-moved-by-recover', 'detail': f'{k}'}
+        for k in sorted(kept):
+            if k not in exp2:
+                return {'signature': 'sensor-pose-lost-by-recover', 'detail': f'{k} was posed before recovery and is not implied by the result'}
     return None
+
+
+def below_ids(case, rid):
+    """ all devices mounted (directly or not) on rig rid """
+    rigs = {r: [m for m, _ in ms] for r, ms in case['rigs']}
+    out, todo = [], list(rigs.get(rid, []))
+    while todo:
+        m = todo.pop()
+        out.append(m)
+        todo.extend(rigs.get(m, []))
+    return out
 
 
 def nontrivial(case):
